@@ -179,7 +179,7 @@ impl<'a, S: BitmapSlice> AsyncZeroCopyReader for AsyncZcReader<'a, S> { }
              '''proof {
             reveal(ok_reply);
             let m = ok_reply(self.in_header.unique, data2@, data3@);
-            assert(m =~= header.sbytes() + data2@ + data3@);
+            assert(m =~= header.sbytes() + data2@ + data3@); // [C20.reply_ok.header]
             if data2@.len() == 0 { assert(m =~= header.sbytes() + data3@); }
             if data3@.len() == 0 { assert(m =~= header.sbytes() + data2@); }
             if data2@.len() == 0 && data3@.len() == 0 { assert(m =~= header.sbytes()); }
